@@ -335,16 +335,20 @@ func VP_C04_sc_attrs_4k_csum() { c04ScAttrs(c04Cfg{spb: 8, csum: true, start: 40
 // inode's extent root and the following ones move the extents into a depth-1 tree
 // (extendExtentTree / promoteLeafToChild). Content (symbolic bytes) is compared block by
 // block, live and after re-open.
-func c04ScAppend(cfg c04Cfg, appends int) {
+func c04ScAppend(cfg c04Cfg, appends int, extra int) {
 	fsys, dev, size := c04Fixture(cfg)
 	bs := cfg.bs()
-	total := bs + appends*(bs+3)
+	total := bs + appends*(bs+extra)
 	data := vp.Bytes("data", total)
 	c04Put(fsys, "f", data[:bs])
+	vp.Cover("first block written")
 	pos := bs
+	// KF-C04-3: a write that starts at an unaligned offset in the block right after the end of an
+	// extent panics (makeslice with a negative length)
+	vp.KnownPanic("KF-C04-3", "ext4/file.go:198")
 	for k := 0; k < appends; k++ {
-		c04WriteAt(fsys, "f", os.O_APPEND|os.O_RDWR, -1, data[pos:pos+bs+3])
-		pos += bs + 3
+		c04WriteAt(fsys, "f", os.O_APPEND|os.O_RDWR, -1, data[pos:pos+bs+extra])
+		pos += bs + extra
 	}
 	c04NoPanic()
 	h, err := fsys.OpenFile("f", os.O_RDONLY)
@@ -362,10 +366,14 @@ func c04ScAppend(cfg c04Cfg, appends int) {
 	vp.Cover("append scenario done")
 }
 
-func VP_C04_sc_append_1k() { c04ScAppend(c04Cfg{spb: 2}, vp.Bound("appends", 5, 8)) }
+// block-sized appends (every append starts on a block boundary)
+func VP_C04_sc_append_aligned_1k() { c04ScAppend(c04Cfg{spb: 2}, vp.Bound("appends", 5, 8), 0) }
+
+// appends of one block + 3 bytes (later appends start inside a block)
+func VP_C04_sc_append_unaligned_1k() { c04ScAppend(c04Cfg{spb: 2}, 3, 3) }
 func VP_C04_sc_append_4k_csum() {
 	if vp.Thorough() {
-		c04ScAppend(c04Cfg{spb: 8, csum: true, start: 4096}, 5)
+		c04ScAppend(c04Cfg{spb: 8, csum: true, start: 4096}, 5, 0)
 	}
 }
 
